@@ -487,6 +487,20 @@ def run(prog, chk):
     if memrules.hash_iter_lookahead(prog, r11) < 8:
         raise Broken("fewer than 8 HASH_ITER loops found")
 
+    # the parser's storing calls dereference their handle: none is reached with a NULL one (shared with C15 R9)
+    from . import c15
+    c15.null_target_rule(prog, chk, "R15", primary=False)
+
+    r16 = chk.rule("R16-wide-copy-sizes-in-bytes", "memcpy / memmove / memset of wide objects have a size built with sizeof; u_memcpy / "
+                   "u_memmove count UChars (shared with C08 R9)", primary=False, floor=15)
+    if memrules.wide_copy_sizes(prog, r16) < 15:
+        raise Broken("fewer than 15 memcpy-family calls found")
+
+    r17 = chk.rule("R17-not-freed-after-transfer", "a block stored into a field of an object that stays alive is not freed afterwards by the "
+                   "same function (shared with C17 R17)", primary=False, floor=2)
+    if memrules.free_after_transfer(prog, r17) < 2:
+        raise Broken("fewer than 2 store-then-free sites found")
+
     r14 = chk.rule("R14-no-release-of-an-unset-pointer", "a local pointer declared without an initialiser and set only by a callee that "
                    "succeeded is not handed to free() / a *_free function on the path through that callee's failure", primary=False, floor=15)
     from .. import uninitfree
